@@ -342,6 +342,13 @@ def install(it) -> Aio:
                     else:
                         x.done = True
                         results.append(Opaque(f'result of {x!r}'))
+                elif isinstance(x, SimpleAwaitable):
+                    try:
+                        results.append(x.fn(it3))
+                    except PyRaise as pr:
+                        if not ret_exc:
+                            raise
+                        results.append(pr.exc)
                 else:
                     raise Unsupported(f'gather of {x!r}')
             return results
